@@ -261,18 +261,21 @@ def gen_reservoir():
     if isf is None or [a.arg for a in isf.args.args] != ["a_matrix", "x", "b"]:
         raise P.Untranslatable("_is_solved(a_matrix, x, b) not found")
     stm = [n for n in isf.body if not (isinstance(n, ast.Expr) and isinstance(n.value, ast.Constant))]
+    # the same norm on both sides: Euclidean (np.linalg.norm(v)) or largest entry (np.abs(v).max())
+    norms = {"np.linalg.norm(a_matrix@x-b)": "np.linalg.norm(b)", "np.abs(a_matrix@x-b).max()": "np.abs(b).max()"}
     if not (len(stm) == 1 and isinstance(stm[0], ast.Return) and isinstance(stm[0].value, ast.Compare) and len(stm[0].value.ops) == 1
-            and isinstance(stm[0].value.ops[0], (ast.LtE, ast.Lt)) and ast.unparse(stm[0].value.left).replace(" ", "") == "np.linalg.norm(a_matrix@x-b)"):
-        raise P.Untranslatable("_is_solved: not `return np.linalg.norm(a_matrix @ x - b) <= ...`")
+            and isinstance(stm[0].value.ops[0], (ast.LtE, ast.Lt)) and ast.unparse(stm[0].value.left).replace(" ", "") in norms):
+        raise P.Untranslatable("_is_solved: not `return <norm of a_matrix @ x - b> <= ...`")
+    b_norm_txt = norms[ast.unparse(stm[0].value.left).replace(" ", "")]
 
     def rexp(node):
-        if ast.unparse(node).replace(" ", "") == "np.linalg.norm(b)":
+        if ast.unparse(node).replace(" ", "") == b_norm_txt:
             return "b_norm"
         if isinstance(node, ast.BinOp) and isinstance(node.op, (ast.Add, ast.Sub, ast.Mult)):
             return f"({rexp(node.left)} {'+' if isinstance(node.op, ast.Add) else '-' if isinstance(node.op, ast.Sub) else '*'} {rexp(node.right)})"
         return const_term(node, "_is_solved")
     cmp_ = "Rle_dec" if isinstance(stm[0].value.ops[0], ast.LtE) else "Rlt_dec"
-    accept_out.append("(* _is_solved: res_norm stands for ||A x - b||, b_norm for ||b|| (2-norms) *)\n"
+    accept_out.append(f"(* _is_solved: res_norm stands for ||A x - b||, b_norm for ||b||, both taken as {b_norm_txt.replace('(b)', '(.)')} *)\n"
                       f"Definition is_solved (res_norm b_norm : R) : bool := if {cmp_} res_norm {rexp(stm[0].value.comparators[0])} then true else false.")
     m.out.append("\n".join(accept_out) + "\n")
     m.uses_z = True
